@@ -28,7 +28,7 @@ def showState (st : St) : String :=
 /-- c10.  ops:
       reload <n> (<latestId> <unblockedId> <holder> <cp> <revokedCp> <inflight> <monId> <monHolder> <monCp> <monMinSecret>)*n
           → `err` | `ok <outcome per channel>`          (Restart.reloadNode: the startup decision)
-      init <key> <baseId> <holder> <cp> <secret> | upd <key> <dHolder> <dCp> <dSecret> <blocked> | release <key> |
+      init <key> <baseId> <holder> <cp> <secret> | upd <key> <dHolder> <dCp> <dSecret> <blocked> | jump <key> <dHolder> <dCp> <dSecret> | release <key> |
       complete <key> <k> | notify <key> | persist <key> | crash <key> <d>     (Restart.step on the run state of channel <key>)
       state <key> → `<latest> <watch> <in-flight> <chan nums> <nums of the monitor at watch>` -/
 def c10 : Drv where
@@ -50,6 +50,7 @@ def c10 : Drv where
       | none => (sts, "bad-op")
     | ["init", k, b, h, c, s] => ((k, St.init (nat! b) ⟨nat! h, nat! c, nat! s⟩) :: sts.filter (fun p => p.1 != k), "ok")
     | ["upd", k, dh, dc, ds, bl] => upd k (fun st => step st (.update ⟨nat! dh, nat! dc, nat! ds⟩ (bl == "1")))
+    | ["jump", k, dh, dc, ds] => upd k (fun st => step st (.jump ⟨nat! dh, nat! dc, nat! ds⟩))
     | ["release", k] => upd k (fun st => step st .release)
     | ["complete", k, x] => upd k (fun st => step st (.complete (nat! x)))
     | ["notify", k] => upd k (fun st => step st .notify)
